@@ -1,5 +1,6 @@
 """C09 — item data is published race-free to every reader (declared happens-before edges)."""
 from cfg import Inconclusive, op_place, show, walk
+from common import spawner_fn
 from common import (STRENGTH_LOAD, STRENGTH_STORE, atomic_op, calls_to, callee, callee_names,
                     closure_consumer, spawn_closures, resolve_capture, closure_creations, field_chain, fn_of, find_fn, is_call_to,
                     ordering_of, peel, site, uses_of_local, head_sources)
@@ -207,7 +208,7 @@ def rule_matchers_confined(ctx):
             ctx.violation("%s|Matchers::get|1" % fn.path, site(fn, bi),
                           "per-thread matcher scratch memory accessed outside the worker run (root body %s): the unsafe `impl Sync for Matchers` relies on one matcher per pool thread" % root)
     # 2. process_new_items only from run; run only from the closure tick_inner hands to the pool
-    ti = find_fn(facts, "nucleo", "Nucleo::<T>::tick_inner")
+    ti = spawner_fn(facts)
     spawned = spawn_closures(ti)
     if not spawned:
         raise Inconclusive("no closure handed to ThreadPool::spawn found in tick_inner")
@@ -283,7 +284,7 @@ def rule_matchers_confined(ctx):
 
 def rule_guard_moved(ctx):
     facts = ctx.facts
-    ti = find_fn(facts, "nucleo", "Nucleo::<T>::tick_inner")
+    ti = spawner_fn(facts)
     cl = spawn_closures(ti)
     if not cl:
         raise Inconclusive("no closure handed to ThreadPool::spawn found in tick_inner")
